@@ -14,7 +14,8 @@ def grid(tier):
     if tier == 'quick': cfgs.append(([2], [9]))
     cfgs += [([0, 2], [2, 6]), ([2, 2], [6, 7]), ([3, 1], [9, 4]), ([1, 0], [5, 3]), ([1, 1, 1], [4, 5, 4])]
     # 8-D / 9-D: the gradient must be refused (quick: gradient groups only; the other groups are thorough)
-    hi = [([1, 0, 0, 0, 0, 0, 0, 1], [4, 2, 2, 2, 2, 2, 2, 5]), ([0, 0, 0, 0, 1, 0, 0, 0, 1], [2, 2, 2, 2, 4, 2, 2, 2, 4])]
+    # 7-D is the largest table the SIMD gradient serves (all lanes of the basis cell in use)
+    hi = [([0, 0, 0, 0, 0, 0, 1], [2, 2, 2, 2, 2, 2, 4]), ([1, 0, 0, 0, 0, 0, 0, 1], [4, 2, 2, 2, 2, 2, 2, 5]), ([0, 0, 0, 0, 1, 0, 0, 0, 1], [2, 2, 2, 2, 4, 2, 2, 2, 4])]
     if tier != 'quick':
         cfgs += hi + [([2, 2, 2], [6, 6, 6]), ([1, 0, 2], [4, 2, 7]), ([3, 3], [8, 10]), ([5, 2], [12, 7]), ([4, 4], [10, 11]), ([3, 3, 3], [8, 8, 9]), ([2, 3, 1], [7, 8, 4]),
                  ([2, 2, 2, 2], [6, 6, 6, 6]), ([2, 2, 2, 2, 2], [6, 6, 6, 6, 6]), ([2, 2, 2, 3, 2, 2], [6, 6, 6, 8, 6, 6]),
